@@ -58,3 +58,15 @@ package worker
 //@   ghost ok bool = false
 //@   calls Executor.Execute#1: set ok = ($r2 == nil)
 //@   calls rr.onKilled#1: requires ok && $0 == rr.uuid
+
+// startContainer (synchronous part): the container is recorded as starting on
+// this worker - so that Pool.Running reports it from this moment on - before
+// the goroutine that talks to the VM is launched, and the worker leaves the
+// idle state; the runner is created for this container.
+//@ func newRemoteRunner trusted
+//@   modifies nothing
+//@ func worker.startContainer property C14
+//@   requires wkr.starting != nil
+//@   calls newRemoteRunner#1: requires $0 == ctr.UUID && $1 == wkr
+//@   at assign .state#1: assert has(wkr.starting, ctr.UUID)
+//@   ensures has(wkr.starting, ctr.UUID) && wkr.state == StateRunning
